@@ -1,4 +1,5 @@
-/- Driver.C10 — stream `C10` (stub: replaced when the property's model is built). -/
+/- Driver.C10 — stream `C10`: the shared attribute-store wire format (Driver/AttrsWire.lean, model AHP/Model/Attrs.lean). -/
+import Driver.AttrsWire
 namespace Driver.C10
-def run (_payload : String) : String := "unimplemented"
+def run (payload : String) : String := Driver.AttrsWire.run payload
 end Driver.C10
